@@ -33,7 +33,9 @@ def base_config(seed, prop, rnd, n_libs=1, n_data=1, lib_n=None, profile=None, a
         "pool": {"kind": "sim", "size": rnd.randint(1, 6)},
         "rng_seed": rnd.getrandbits(32),
         # the thorough tier can afford more dill transports (each loads() re-evaluates pytensor graphs, ~0.8 s)
-        "sched_profile": {"p_dill": 0.06 if tier == "thorough" else 0.02},
+        # "proc" = a REAL worker process (fresh interpreter, stepped one chunk at a time): true per-process module
+        # state.  Not for C03 (its attribution oracle needs the worker's draws, which a real process keeps to itself).
+        "sched_profile": {"p_dill": 0.06 if tier == "thorough" else 0.02, "p_proc": 0.0 if prop in ("C03", "C13") else (0.03 if tier == "thorough" else 0.01), "proc_servers": 2},
     }
 
 
